@@ -429,7 +429,7 @@ func c11Sessions(c *Ctx) {
 
 // c11Conc: many clients start sessions at once; every fresh cookie must name the server that served that very response.
 func c11Conc(c *Ctx) {
-	c.Cases("conc", c.N(30, 800), func(i int, r *rand.Rand) {
+	c.Cases("conc", c.N(80, 2500), func(i int, r *rand.Rand) {
 		codec := c11GenCodec(r)
 		kind := pick(r, []string{"rr", "rb"})
 		h := http.HandlerFunc(func(w http.ResponseWriter, req *http.Request) { w.Header().Set("X-Routed", urlKey(req.URL)) })
